@@ -6,7 +6,7 @@ Open Scope N_scope.
 
 (** * Pinned constants: a change of these in /repo breaks the proofs *)
 Lemma object_id_matcher_pinned :
-  K_OBJECT_ID_MATCHER = b """id""\s*:\s*""([^""]+)""".
+  K_OBJECT_ID_MATCHER = b """id""\s*:\s*(""(?:[^""\\]|\\.)+"")".
 Proof. reflexivity. Qed.
 
 Lemma listing_consts_pinned :
@@ -29,6 +29,32 @@ Definition notnl (c : ascii) : bool := negb (code c =? 10).
 Lemma esc_byte_unquote c X :
   json_unquote (json_escape_byte c ++ X) = prepend [c] (json_unquote X).
 Proof. all_bytes c; reflexivity. Qed.
+
+Lemma tsb_plain c X :
+  ((code c =? 34) || (code c =? 10) || (code c =? 92)) = false ->
+  take_string_body (c :: X) = prepend [c] (take_string_body X).
+Proof.
+  intros H. apply orb_false_iff in H as [H H3]. apply orb_false_iff in H as [H1 H2].
+  cbn [take_string_body]. now rewrite H1, H2, H3.
+Qed.
+
+Lemma tsb_esc e X :
+  (code e =? 10) = false -> take_string_body (BSL :: e :: X) = prepend [BSL; e] (take_string_body X).
+Proof.
+  intros H. cbn [take_string_body]. change (code BSL =? 34) with false. change (code BSL =? 10) with false.
+  change (code BSL =? 92) with true. cbv iota. now rewrite H.
+Qed.
+
+Lemma prepend_prepend a c o : prepend a (prepend c o) = prepend (a ++ c) o.
+Proof. destruct o as [[x z]|]; [|reflexivity]. cbn [prepend]. now rewrite app_assoc. Qed.
+
+(** the regex units of the pre-filter consume an escaped byte as a whole *)
+Lemma esc_byte_body c X :
+  take_string_body (json_escape_byte c ++ X) = prepend (json_escape_byte c) (take_string_body X).
+Proof.
+  all_bytes c; lazy -[take_string_body prepend];
+    rewrite ?tsb_esc by reflexivity; rewrite ?tsb_plain by reflexivity; rewrite ?prepend_prepend; reflexivity.
+Qed.
 
 Lemma esc_byte_no_nl c : forallb notnl (json_escape_byte c) = true.
 Proof. all_bytes c; reflexivity. Qed.
@@ -99,7 +125,102 @@ Proof.
     + cbn [orb]. split; [lia|]. intros H. specialize (IH2 H). lia.
 Qed.
 
-(** * The text the pre-filter captures: the escaped id up to its first quote *)
+(** * The string the pre-filter captures from an inventory written by rocfl:
+    the whole escaped id, which decodes to the id *)
+Lemma body_escape i z : take_string_body (json_escape i ++ QUO :: z) = Some (json_escape i, z).
+Proof.
+  induction i as [|c i IH].
+  - reflexivity.
+  - rewrite json_escape_cons, <- app_assoc, esc_byte_body, IH. cbn [prepend]. reflexivity.
+Qed.
+
+Lemma decode_escape i : decode_id_text (json_escape i) = i.
+Proof. unfold decode_id_text. now rewrite unquote_escape. Qed.
+
+Lemma json_escape_nonempty i : i <> [] -> nonempty (json_escape i) = true.
+Proof.
+  destruct i as [|c i]; [congruence|]. intros _. rewrite json_escape_cons.
+  destruct (esc_byte_head c) as (h & r & -> & _). reflexivity.
+Qed.
+
+(** * Whitespace skipping stops at a byte that starts no white-space character *)
+Definition ws_lead (a : N) : bool := (a =? 194) || (a =? 225) || (a =? 226) || (a =? 227).
+
+Lemma skip_ws_stop c s : ws1 (code c) = false -> ws_lead (code c) = false -> skip_ws (c :: s) = c :: s.
+Proof.
+  intros H1 H2. unfold ws_lead in H2.
+  apply orb_false_iff in H2 as [H2 H5]. apply orb_false_iff in H2 as [H2 H4]. apply orb_false_iff in H2 as [H2 H3].
+  destruct s as [|c2 [|c3 r3]]; cbn [skip_ws]; rewrite H1; try reflexivity;
+    unfold ws2, ws3; rewrite ?H2, ?H3, ?H4, ?H5; reflexivity.
+Qed.
+
+Lemma match_after_key_compact X :
+  match_after_key (":"%char :: QUO :: X) =
+  match take_string_body X with
+  | Some (body, _) => if nonempty body then Some (decode_id_text body) else None
+  | None => None
+  end.
+Proof.
+  unfold match_after_key. rewrite (skip_ws_stop ":"%char) by reflexivity.
+  change (code ":"%char =? 58) with true. cbv iota.
+  rewrite (skip_ws_stop QUO) by reflexivity.
+  change (code QUO =? 34) with true. cbv iota. reflexivity.
+Qed.
+
+Lemma match_after_key_pretty X :
+  match_after_key (":"%char :: " "%char :: QUO :: X) =
+  match take_string_body X with
+  | Some (body, _) => if nonempty body then Some (decode_id_text body) else None
+  | None => None
+  end.
+Proof.
+  unfold match_after_key. rewrite (skip_ws_stop ":"%char) by reflexivity.
+  change (code ":"%char =? 58) with true. cbv iota.
+  change (skip_ws (" "%char :: QUO :: X)) with (skip_ws (QUO :: X)).
+  rewrite (skip_ws_stop QUO) by reflexivity.
+  change (code QUO =? 34) with true. cbv iota. reflexivity.
+Qed.
+
+Lemma match_after_key_escaped i rest :
+  i <> [] ->
+  match take_string_body (json_escape i ++ QUO :: rest) with
+  | Some (body, _) => if nonempty body then Some (decode_id_text body) else None
+  | None => None
+  end = Some i.
+Proof. intros Hi. now rewrite body_escape, (json_escape_nonempty i Hi), decode_escape. Qed.
+
+(** * What the pre-filter extracts from an inventory written by rocfl: the id,
+    whatever bytes it is made of (5a727de) *)
+Lemma extract_serialized pretty i rest :
+  i <> [] -> extract_object_id (serialize_inventory pretty i rest) = Some i.
+Proof.
+  intros Hi. destruct pretty.
+  - change (serialize_inventory true i rest) with
+      ("{"%char :: ascii_of_N 10 :: " "%char :: " "%char :: QUO :: "i"%char :: "d"%char :: QUO ::
+       ":"%char :: " "%char :: QUO :: (json_escape i ++ QUO :: rest)).
+    change (extract_object_id
+      ("{"%char :: ascii_of_N 10 :: " "%char :: " "%char :: QUO :: "i"%char :: "d"%char :: QUO ::
+       ":"%char :: " "%char :: QUO :: (json_escape i ++ QUO :: rest)))
+      with (match match_after_key (":"%char :: " "%char :: QUO :: (json_escape i ++ QUO :: rest)) with
+            | Some x => Some x
+            | None => extract_object_id ("i"%char :: "d"%char :: QUO ::
+                        ":"%char :: " "%char :: QUO :: (json_escape i ++ QUO :: rest))
+            end).
+    rewrite match_after_key_pretty, (match_after_key_escaped i rest Hi). reflexivity.
+  - change (serialize_inventory false i rest) with
+      ("{"%char :: QUO :: "i"%char :: "d"%char :: QUO :: ":"%char :: QUO :: (json_escape i ++ QUO :: rest)).
+    change (extract_object_id
+      ("{"%char :: QUO :: "i"%char :: "d"%char :: QUO :: ":"%char :: QUO :: (json_escape i ++ QUO :: rest)))
+      with (match match_after_key (":"%char :: QUO :: (json_escape i ++ QUO :: rest)) with
+            | Some x => Some x
+            | None => extract_object_id ("i"%char :: "d"%char :: QUO ::
+                        ":"%char :: QUO :: (json_escape i ++ QUO :: rest))
+            end).
+    rewrite match_after_key_compact, (match_after_key_escaped i rest Hi). reflexivity.
+Qed.
+
+(** * Historical note: the pre-filter before 5a727de ([extract_object_id_before_fix])
+    captured the escaped id up to its first quote and compared that text *)
 Fixpoint until_quote (s : bytes) : bytes :=
   match s with
   | [] => []
@@ -143,45 +264,34 @@ Proof.
   unfold notq in Hq. apply negb_true_iff in Hq. rewrite Hq. reflexivity.
 Qed.
 
-(** * Whitespace skipping stops at a byte that starts no white-space character *)
-Definition ws_lead (a : N) : bool := (a =? 194) || (a =? 225) || (a =? 226) || (a =? 227).
-
-Lemma skip_ws_stop c s : ws1 (code c) = false -> ws_lead (code c) = false -> skip_ws (c :: s) = c :: s.
-Proof.
-  intros H1 H2. unfold ws_lead in H2.
-  apply orb_false_iff in H2 as [H2 H5]. apply orb_false_iff in H2 as [H2 H4]. apply orb_false_iff in H2 as [H2 H3].
-  destruct s as [|c2 [|c3 r3]]; cbn [skip_ws]; rewrite H1; try reflexivity;
-    unfold ws2, ws3; rewrite ?H2, ?H3, ?H4, ?H5; reflexivity.
-Qed.
-
-Lemma match_after_key_compact X :
-  match_after_key (":"%char :: QUO :: X) =
+Lemma match_after_key_before_fix_compact X :
+  match_after_key_before_fix (":"%char :: QUO :: X) =
   match take_nonquote X with
   | (cap, q2 :: _) => if (code q2 =? 34) && nonempty cap then Some cap else None
   | (_, []) => None
   end.
 Proof.
-  unfold match_after_key. rewrite (skip_ws_stop ":"%char) by reflexivity.
+  unfold match_after_key_before_fix. rewrite (skip_ws_stop ":"%char) by reflexivity.
   change (code ":"%char =? 58) with true. cbv iota.
   rewrite (skip_ws_stop QUO) by reflexivity.
   change (code QUO =? 34) with true. cbv iota. reflexivity.
 Qed.
 
-Lemma match_after_key_pretty X :
-  match_after_key (":"%char :: " "%char :: QUO :: X) =
+Lemma match_after_key_before_fix_pretty X :
+  match_after_key_before_fix (":"%char :: " "%char :: QUO :: X) =
   match take_nonquote X with
   | (cap, q2 :: _) => if (code q2 =? 34) && nonempty cap then Some cap else None
   | (_, []) => None
   end.
 Proof.
-  unfold match_after_key. rewrite (skip_ws_stop ":"%char) by reflexivity.
+  unfold match_after_key_before_fix. rewrite (skip_ws_stop ":"%char) by reflexivity.
   change (code ":"%char =? 58) with true. cbv iota.
   change (skip_ws (" "%char :: QUO :: X)) with (skip_ws (QUO :: X)).
   rewrite (skip_ws_stop QUO) by reflexivity.
   change (code QUO =? 34) with true. cbv iota. reflexivity.
 Qed.
 
-Lemma match_after_key_escaped i rest :
+Lemma match_after_key_before_fix_escaped i rest :
   i <> [] ->
   match take_nonquote (json_escape i ++ QUO :: rest) with
   | (cap, q2 :: _) => if (code q2 =? 34) && nonempty cap then Some cap else None
@@ -192,36 +302,35 @@ Proof.
   change (code QUO =? 34) with true. fold (raw_capture i). rewrite (raw_capture_nonempty i Hi). reflexivity.
 Qed.
 
-(** * What the pre-filter extracts from an inventory written by rocfl *)
-Lemma extract_serialized pretty i rest :
-  i <> [] -> extract_object_id (serialize_inventory pretty i rest) = Some (raw_capture i).
+Lemma extract_serialized_before_fix pretty i rest :
+  i <> [] -> extract_object_id_before_fix (serialize_inventory pretty i rest) = Some (raw_capture i).
 Proof.
   intros Hi. destruct pretty.
   - change (serialize_inventory true i rest) with
       ("{"%char :: ascii_of_N 10 :: " "%char :: " "%char :: QUO :: "i"%char :: "d"%char :: QUO ::
        ":"%char :: " "%char :: QUO :: (json_escape i ++ QUO :: rest)).
-    change (extract_object_id
+    change (extract_object_id_before_fix
       ("{"%char :: ascii_of_N 10 :: " "%char :: " "%char :: QUO :: "i"%char :: "d"%char :: QUO ::
        ":"%char :: " "%char :: QUO :: (json_escape i ++ QUO :: rest)))
-      with (match match_after_key (":"%char :: " "%char :: QUO :: (json_escape i ++ QUO :: rest)) with
+      with (match match_after_key_before_fix (":"%char :: " "%char :: QUO :: (json_escape i ++ QUO :: rest)) with
             | Some x => Some x
-            | None => extract_object_id ("i"%char :: "d"%char :: QUO ::
+            | None => extract_object_id_before_fix ("i"%char :: "d"%char :: QUO ::
                         ":"%char :: " "%char :: QUO :: (json_escape i ++ QUO :: rest))
             end).
-    rewrite match_after_key_pretty, (match_after_key_escaped i rest Hi). reflexivity.
+    rewrite match_after_key_before_fix_pretty, (match_after_key_before_fix_escaped i rest Hi). reflexivity.
   - change (serialize_inventory false i rest) with
       ("{"%char :: QUO :: "i"%char :: "d"%char :: QUO :: ":"%char :: QUO :: (json_escape i ++ QUO :: rest)).
-    change (extract_object_id
+    change (extract_object_id_before_fix
       ("{"%char :: QUO :: "i"%char :: "d"%char :: QUO :: ":"%char :: QUO :: (json_escape i ++ QUO :: rest)))
-      with (match match_after_key (":"%char :: QUO :: (json_escape i ++ QUO :: rest)) with
+      with (match match_after_key_before_fix (":"%char :: QUO :: (json_escape i ++ QUO :: rest)) with
             | Some x => Some x
-            | None => extract_object_id ("i"%char :: "d"%char :: QUO ::
+            | None => extract_object_id_before_fix ("i"%char :: "d"%char :: QUO ::
                         ":"%char :: QUO :: (json_escape i ++ QUO :: rest))
             end).
-    rewrite match_after_key_compact, (match_after_key_escaped i rest Hi). reflexivity.
+    rewrite match_after_key_before_fix_compact, (match_after_key_before_fix_escaped i rest Hi). reflexivity.
 Qed.
 
-(** the capture is the id itself exactly when the id needs no JSON escape *)
+(** the old capture was the id itself exactly when the id needs no JSON escape *)
 Lemma raw_capture_is_id i : raw_capture i = i <-> needs_escape i = false.
 Proof.
   split.
@@ -233,16 +342,22 @@ Proof.
     apply until_quote_id, needs_escape_false_notq, H.
 Qed.
 
-Lemma extract_id_spec_lemma pretty i rest :
+Lemma extract_before_fix_spec pretty i rest :
   i <> [] ->
-  (extract_object_id (serialize_inventory pretty i rest) = Some i <-> needs_escape i = false).
+  (extract_object_id_before_fix (serialize_inventory pretty i rest) = Some i <-> needs_escape i = false).
 Proof.
-  intros Hi. rewrite (extract_serialized pretty i rest Hi). split.
+  intros Hi. rewrite (extract_serialized_before_fix pretty i rest Hi). split.
   - intros H. apply raw_capture_is_id. congruence.
   - intros H. f_equal. apply raw_capture_is_id, H.
 Qed.
 
-(** * Parsing the id back *)
+Lemma extract_before_fix_history pretty i rest :
+  i <> [] ->
+  extract_object_id_before_fix (serialize_inventory pretty i rest) = Some (raw_capture i) /\
+  (extract_object_id_before_fix (serialize_inventory pretty i rest) = Some i <-> needs_escape i = false).
+Proof. intros H. split; [apply extract_serialized_before_fix, H| apply extract_before_fix_spec, H]. Qed.
+
+(** * Parsing the id of the whole inventory *)
 Lemma parse_serialized pretty i rest :
   i <> [] -> parse_inventory_id (serialize_inventory pretty i rest) = Some i.
 Proof.
